@@ -55,9 +55,7 @@ func sweepV3Lift[T comparable, P Object[T]](r *Report, im *Impl[T, P], devs []v3
 			iterViolation(r, im, dims, bg, 16, idx, a, "v3-score", key, exp, obs+" on "+P(o).Vector(), nil,
 				func(a spec.Assignment, o *T) string { k, _, _ := each(a, o); return k })
 		}
-	}, func(a spec.Assignment, why string) {
-		r.Violation(Case{Kind: "v3-score", Key: "v" + ver.Name + "/score/cannot-build", Expected: "object built by Set reads back", Observed: why, Args: map[string]any{"version": ver.Name, "vector": ver.Full(a)}}, nil)
-	}, r.TooMany)
+	}, iterBad(r, im, dims, bg, "v3-score"), r.TooMany)
 	r.States.Add(n.Load())
 	r.Transitions.Add(n.Load() * 5)
 	r.Traces.Add(n.Load())
@@ -93,7 +91,7 @@ func sweepV3AllOverridden[T comparable, P Object[T]](r *Report, im *Impl[T, P], 
 			r.Violation(Case{Kind: "v3-score", Key: key, Expected: exp, Observed: obs + " on " + P(&oo).Vector(),
 				Args: map[string]any{"version": ver.Name, "vector": ver.Full(aa)}}, nil)
 		}
-	}, func(a spec.Assignment, why string) {}, r.TooMany)
+	}, func(idx int, a spec.Assignment, why string) {}, r.TooMany)
 	r.States.Add(n.Load())
 	r.Transitions.Add(n.Load() * 5)
 	r.Traces.Add(n.Load())
